@@ -1,7 +1,7 @@
 (* Wire/Masked.v — the generated codec under a field mask (with_field_mask):
    generator/golang/templates/struct.go, the with_field_mask branches of StructLikeWriteField,
    FieldWriteStructLike / Map / Set / List, StructLikeReadField, FieldReadStructLike / Map / Set /
-   List, and ZeroWriter of generator/golang/thrift.go — after the repairs C13-1 .. C13-5
+   List, and ZeroWriter of generator/golang/thrift.go — after the repairs C13-1 .. C13-6
    (proposed_fixes/), on top of the standard codec of Wire/Std.v.
 
    The code consults the mask only through Field(id) / Int(i) / Str(s) (sub mask + "passes")
